@@ -169,3 +169,72 @@ def r_solverstate(A, ctx, scope, rule="R-SOLVERSTATE"):
                         "object: a later solve with the same instance depends on this call",
                    loc=loc(m, bad) if bad else None)
     ctx.floor(rule, n, scope.get("floor", 25))
+
+
+def _establishes_csc(st, xname):
+    """does statement `st` make sure that sparse `xname` is CSC from here on?  Conversions
+    (`X = X.tocsc()`, `X = csc_matrix(X)`, `X = check_array(X, 'csc', ...)`) and refusals
+    (`if <test on X.format / isspmatrix_csc(X)>: raise`), directly or under an `issparse` test."""
+    if isinstance(st, ast.Assign) and len(st.targets) == 1 and isinstance(st.targets[0], ast.Name) \
+            and st.targets[0].id == xname and isinstance(st.value, ast.Call):
+        fn = ast.unparse(st.value.func)
+        if fn.endswith((".tocsc", "csc_matrix", "csc_array")):
+            return True
+        if fn.endswith("check_array"):
+            acc = st.value.args[1] if len(st.value.args) > 1 else next(
+                (k.value for k in st.value.keywords if k.arg == "accept_sparse"), None)
+            return isinstance(acc, ast.Constant) and acc.value in ("csc", False)
+    if isinstance(st, ast.If):
+        t = ast.unparse(st.test)
+        if ("format" in t or "isspmatrix_csc" in t or "csc_matrix" in t or "csc_array" in t) and xname in t:
+            if any(isinstance(x, ast.Raise) for b in (st.body, st.orelse) for s in b for x in ast.walk(s)):
+                return True
+            if any(_establishes_csc(s, xname) for s in st.body):
+                return True
+        if "issparse" in t and xname in t and not st.orelse:
+            return any(_establishes_csc(s, xname) for s in st.body)
+    return False
+
+
+def r_solveformat(A, ctx, scope, rule="R-SOLVEFORMAT"):
+    ctx.rule(rule, "sparse format at the solver entry: a solver whose `_solve` (or a kernel it calls) reads "
+             "`X.data / X.indptr / X.indices` as a CSC triple only does so after the entry path "
+             "(BaseSolver.solve, _validate, the solver's custom_checks, or the part of `_solve` before the "
+             "first read) has converted sparse X to CSC or refused other formats; a CSR matrix has the same "
+             "three attributes and is otherwise read as the CSC matrix of another design (a different "
+             "answer, out-of-range rows when the matrix is not square) without any error")
+    base = A.prog.BaseSolver
+    entry = [m for m in (base.find_method("solve"), base.find_method("_validate")) if m is not None]
+    if not entry:
+        raise AnalysisError("BaseSolver.solve missing")
+    n = 0
+    for sname, sf in sorted(A.facts.items()):
+        f = sf.f
+        xname = f.call_params()[0] if f.call_params() else "X"
+        reads = [x for x in ast.walk(f.node) if isinstance(x, ast.Attribute) and x.attr in ("indptr", "indices")
+                 and isinstance(x.value, ast.Name) and x.value.id == xname]
+        if not reads:
+            continue
+        n += 1
+        first = min(r.lineno for r in reads)
+        where = None
+        for m in entry + [sf.cls.find_method("custom_checks")]:
+            if m is None:
+                continue
+            mx = m.call_params()[0] if m.call_params() else "X"
+            for st in m.node.body:
+                if _establishes_csc(st, mx):
+                    where = m.qualname
+                # BaseSolver.solve: `if run_checks:` is the default path
+                if isinstance(st, ast.If) and "run_checks" in ast.unparse(st.test):
+                    if any(_establishes_csc(s, mx) for s in st.body):
+                        where = m.qualname
+        for st in f.node.body:
+            if st.lineno < first and _establishes_csc(st, xname):
+                where = f.qualname
+        ctx.ob(rule, f"{f.fq}", where is not None,
+               what=f"{sname}._solve reads `{xname}.indptr` / `{xname}.indices` as a CSC triple (first at line "
+                    f"{first}) and nothing on the way from solve() converts a sparse `{xname}` to CSC or refuses "
+                    "other formats: solve(X_csr, ...) silently solves another problem (the rows are read as "
+                    "columns) instead of raising or converting", loc=loc(f, reads[0]))
+    ctx.floor(rule, n, scope.get("floor", 5))
